@@ -94,6 +94,7 @@ def h_step(e, m, dcache=None):
     except InstructionExecutionException as ex:
         fault = ex
         ret = None
+    c.check_cell_types(e)  # every register still holds a UInt32 (what the next step computes with)
     exp = R.step(m, f, pc, reg0, mem0)
     q = e.int("q", 0, 31)
     qa = e.int("qa", 0, 2**32 - 1)
